@@ -95,6 +95,7 @@ class Hooks:
     def refused_add_changed_schedule(self, run, accepted, n_before): pass
     def fork_diverged(self, run, detail): pass
     def solver_returned_partial_schedule(self, schedule): pass
+    def decoded_schedule_differs(self, got, want, where): pass
     def before(self, run): pass
     def after(self, run, o, m): pass
     def end(self, run): pass
@@ -341,7 +342,23 @@ def run_consumer(ctx, case, hooks: Hooks):
             o, m = run.choose(rng, "random_ready")
             run.dispatch(o, m)
         seqs = [[so.job_id for so in lst] for lst in run.d.schedule.schedule]
-        Schedule.from_job_sequences(instance, seqs)
+        S1 = Schedule.from_job_sequences(instance, seqs)
+        from ..ref import schedule_triples
+        t1 = schedule_triples(S1)
+        if t1 != run.r.triples():
+            hooks.decoded_schedule_differs(t1, run.r.triples(), "decoded from the job sequences of a history")
+        # a second decode for the same instance object (other sequences) leaves the first result alone
+        run2 = Run(inst, None, instance=instance)
+        while not run2.done():
+            o, m = run2.choose(rng, rng.choice(["random_ready", "one_job_first", "latest_start"]))
+            run2.dispatch(o, m)
+        S2 = Schedule.from_job_sequences(
+            instance, [[so.job_id for so in lst] for lst in run2.d.schedule.schedule])
+        if schedule_triples(S1) != t1:
+            hooks.decoded_schedule_differs(schedule_triples(S1), t1,
+                                           "first decoded schedule after a second decode for the same instance")
+        if schedule_triples(S2) != run2.r.triples():
+            hooks.decoded_schedule_differs(schedule_triples(S2), run2.r.triples(), "second decode")
     elif kind == "frames":
         from job_shop_lib.visualization import create_gantt_chart_frames
         from job_shop_lib.dispatching import HistoryObserver
